@@ -301,7 +301,8 @@ def bad_flags(cfg, flags):
     if mgr == 1:
         return flags & 27 != 0      # 8: has_broken panics, 16: the next validity check (only) fails
     if mgr == 2:
-        return (flags & 5 != 0) or (flags & 2 != 0 and method in (2, 3))   # 4: transaction manager in its error state
+        # 4: transaction manager in its error state; 16: the custom function fails the next time only
+        return (flags & 5 != 0) or (flags & 2 != 0 and method in (2, 3)) or (flags & 16 != 0 and method == 3)
     return False
 
 
